@@ -216,6 +216,9 @@ class Prop(common.PropertyCheck):
         yield {'k': 'combo', 'no_table': True, 'rows': [dict(first, beads='BI2'), first, dict(first, units={'FL1': 'RFI', 'FL2': None, 'FL3': 'MEF'}, beads='B1b')]}
         plain = {'file': 's1.fcs', 'units': {'FL1': 'RFI', 'FL2': 'a.u.', 'FL3': 'Channel'}, 'gate': 'ok'}
         yield {'k': 'combo', 'rows': [dict(plain, beads=b) for b in ('BFAIL', 'BNOMEF', 'BI2', 'B1')] + [dict(plain, file='n380.fcs', beads='B1'), dict(plain, file='n399.fcs', beads='B1'), dict(plain, file='n400.fcs', beads='B1')]}
+        # tables in which every row fails (there is nothing to report, the batch still completes)
+        for rows in (['file_not_found'], ['units', 'gate_fraction'], ['too_few_events', 'file_not_found', 'beads_failed']):
+            yield {'k': 'table', 'rows': rows}
         # beads whose file does not record detector voltages, samples that do: the documented voltage fault, reported in place
         yield {'k': 'combo', 'rows': [first, dict(first, beads='BNOV'), dict(first, file='s1.fcs'), dict(first, beads='BNOV', units={'FL1': 'RFI', 'FL2': 'MEF', 'FL3': None}),
                                       dict(first, beads='BNOV', units={'FL1': 'RFI', 'FL2': None, 'FL3': None})]}
@@ -254,6 +257,9 @@ class Prop(common.PropertyCheck):
                         b2 = FlowCal.excel_ui.process_beads_table(excelgen.table([], columns=['Instrument ID', 'File Path', 'Gate Fraction', 'Clustering Channels']),
                                                                   s.instruments, base_dir=s.ex.dir, verbose=True, full_output=fo)
                     ok = ok and len(r2) == 0 and all(len(x) == 0 for x in b2)
+                # statistics and histograms of an empty batch: empty tables
+                FlowCal.excel_ui.add_samples_stats(st, res)
+                ok = ok and len(FlowCal.excel_ui.generate_histograms_table(st, res)) == 0
                 return {'empty': ok}
             if case['k'] == 'beads':
                 rows = [excelgen.beads_row('G1', 'FC001', 'beads1.fcs', channels=('FL1',)),
@@ -388,6 +394,10 @@ class Prop(common.PropertyCheck):
             with warnings.catch_warnings():
                 warnings.simplefilter('ignore')
                 FlowCal.excel_ui.add_samples_stats(st, res)
+                # the optional histogram table of the same batch: rows for the healthy samples only, none at all if every row failed
+                hist = FlowCal.excel_ui.generate_histograms_table(st, res)
+            healthy = set(rid for rid, v in res.items() if not isinstance(v, Exception))
+            out['hist_ids_ok'] = set(str(i[0]) if isinstance(i, tuple) else str(i) for i in hist.index) <= set(str(x) for x in healthy)
             out['notes'] = [str(x) for x in st['Analysis Notes']]
             out['nev'] = [None if pd.isnull(x) else int(x) for x in st['Number of Events']]
             statcols = [c for c in st.columns if c.endswith(' Mean') or c.endswith(' Median')]
@@ -446,6 +456,8 @@ class Prop(common.PropertyCheck):
         rows = case['rows']
         if impl['ids'] != ['R%d' % i for i in range(len(rows))]:
             return 'results are not keyed by row identifier in table order: %s' % impl['ids']
+        if impl.get('hist_ids_ok') is False:
+            return 'the histogram table of the batch holds rows of samples that failed (rows %s)' % (rows,)
         if case['k'] == 'combo':
             for i, (r, f) in enumerate(zip(rows, impl['faults'])):
                 facts = row_facts(r)
